@@ -160,3 +160,21 @@ def replay_games(chk, files):
         for m in o["mismatches"]:
             yield m, p
     chk.cov["replayed_behaviours"] = tot
+
+
+def gen_game_all(chk, depth, workers=8, roots_file=None):
+    """Gen_Game MODE "all": every path of moves / null moves to nesting depth `depth` from the MC roots, each
+    followed by the take-backs to the root, with the expected state after every step."""
+    roots = os.path.join(chk.outdir, "all_roots.ndjson")
+    r = vlib.sh(["python3", os.path.join(vlib.VERIF, "tools", "fen2json.py"),
+                 roots_file or os.path.join(vlib.VERIF, "data", "mc_roots.txt")])
+    open(roots, "w").write(r.stdout)
+    cfg = os.path.join(chk.outdir, "Gen_Game_all.cfg")
+    gen_cfg(cfg, {"MODE": "all", "MaxDepth": depth, "Steps": 0}, "SPECIFICATION Spec\nINVARIANT Emit\nCHECK_DEADLOCK FALSE\n")
+    res = vlib.tlc("Gen_Game", cfg=cfg, env={"ROOTS": roots}, workers=workers, timeout=3400, xmx="10g", dfs=False)
+    if res.error:
+        raise ToolError("Gen_Game all: " + res.error)
+    gen = [d for t, d in res.reports if t == "GEN"]
+    p = os.path.join(chk.outdir, "game_all.ndjson")
+    vlib.write_ndjson(p, gen)
+    return [(p, len(gen), res)]
